@@ -21,6 +21,8 @@ func vs_modifies(p any) {}
 func vs_visited(n int, k any) bool { return false }
 // vs_done(n): number of completed iterations of the n-th loop (a range over a slice) of the enclosing function.
 func vs_done(n int) int { return 0 }
+// vs_pos(n): byte offset reached by the n-th range-over-string statement of the enclosing function.
+func vs_pos(n int) int { return 0 }
 // vs_same(a, b): the two slices are the same view (same array, offset and length).
 func vs_same[T any](a, b []T) bool { return len(a) == len(b) && (len(a) == 0 || &a[0] == &b[0]) }
 // call history of the function a clause belongs to: whether it called callee (by name), and the
